@@ -66,6 +66,8 @@ def has_word(r):
 class RefLexer:
     def __init__(self, d, builtins):
         """raises Unbound / NotAClass for definitions the macro must reject"""
+        import collections
+        self.stats = collections.Counter()
         self.sets = {}
         self.order = ruleset_names(d)
         env = {}
@@ -140,6 +142,7 @@ class RefLexer:
                     if ctx is None or self.ctx_ok(ctx, chars, pos + k):
                         best = (k, rules[i])
                         break
+                    self.stats['ctx_rejected'] += 1
         if any(not is_empty_lang(r) for r in cur) and k == n:
             # all remaining characters are a viable prefix: end-of-input symbol
             for i, r in enumerate(cur):
@@ -148,6 +151,7 @@ class RefLexer:
                     if ctx is None or self.ctx_ok(ctx, chars, pos + k):
                         best = (n + 1, rules[i])
                         break
+                    self.stats['ctx_rejected'] += 1
         # does the automaton read on after the viable prefix? (it does unless every surviving
         # rule can only accept the empty continuation: an accepting state without successors)
         reads_on = viable == 0 or any(has_word(r) for r in cur if not is_empty_lang(r))
@@ -180,6 +184,10 @@ class RefLexer:
                         done = True
                         item = 'none'
                         break
+                    st = self.stats
+                    st['err_at_eoi' if viable == n - pos else ('err_first_char' if viable == 0 else 'err_mid_lexeme')] += 1
+                    if rs != self.init:
+                        st['err_in_other_ruleset'] += 1
                     p = pos + viable + (1 if reads_on and viable < n - pos else 0)
                     item = 'err %s invalid' % show_loc(locs[start])
                     done = reads_on and (viable == n - pos)
@@ -189,6 +197,16 @@ class RefLexer:
                 k, (idx, kind, _re, _ctx) = best
                 endp = pos + min(k, n - pos)
                 reached_eoi = (k == n - pos + 1)
+                st = self.stats
+                st['selections'] += 1
+                if reached_eoi:
+                    st['eoi_matches'] += 1
+                    if rs != self.init:
+                        st['eoi_matches_other_ruleset'] += 1
+                elif viable > k or (viable == k and reads_on and k < n - pos):
+                    st['rewinds'] += 1
+                    if viable > k + 1:
+                        st['rewinds_over_2plus_chars'] += 1
                 reset, tgt, res = False, None, 0
                 if kind == 'none':
                     reset = True
